@@ -9,7 +9,8 @@ STAT_NAMES = ["send_joined", "send_new_over_max_payload", "send_new_larger_than_
               "send_new_64_segments", "send_new_after_short_tail", "send_gso_set_at_last_buffer",
               "send_gso_set_when_closing", "send_batches", "send_single_datagram_messages",
               "recv_split_messages", "recv_unsplit_messages", "recv_stop_at_N0", "recv_overflow_error",
-              "recv_getgso_error", "recv_segments_out", "send_new_zero_length_datagram"]
+              "recv_getgso_error", "recv_segments_out", "send_new_zero_length_datagram",
+              "sendloop_cases", "sendloop_partial_writes", "sendloop_injected_failures"]
 
 
 def kernel_sizes(out):
@@ -31,12 +32,16 @@ class Prop:
     pid = "C18"
     vo_check = ["theories/UdpGso/Check.vo"]
     vo_props = ["theories/Props/C18.vo"]
-    k_names = ["coalesce(conn.coalesceMessages via VerifCoalesceMessages == UdpGso.Model.coalesce: count, payload bytes, cap, sticky control, UDP_SEGMENT values, Addr)",
+    k_names = ["sendloop(StdNetBind.send under an injected oracle of per-call acceptance counts/failures via VerifSendLoop == UdpGso.Model.send_loop: "
+               "order and multiplicity of the messages handed to the kernel, error flag)",
+               "coalesce(conn.coalesceMessages via VerifCoalesceMessages == UdpGso.Model.coalesce: count, payload bytes, cap, sticky control, UDP_SEGMENT values, Addr)",
                "split(conn.splitCoalescedMessages via VerifSplitCoalescedMessages == UdpGso.Model.split: n, error class, N/Addr/bytes of every slot)",
                "loopback(StdNetBind pair over 127.0.0.1 and ::1 delivers batches of 1..128 intact, offloads on and off; "
                "StdNetBind -> plain UDP socket shows the wire datagram by datagram incl. zero-length datagrams and sticky-source endpoints; "
                "two binds sending and receiving synchronously reuse the pooled message vectors and every receive call returns exactly "
-               "the outstanding datagrams; validates UdpGso.KernelSpec and the glue around the modelled core)"]
+               "the outstanding datagrams; the same send loop with a limited writer forwarding to the real socket (partial writes), and the "
+               "public Send of a bind whose first sendmmsg fails with EIO (GSO disabled, batch resent from the pooled vector): the plain "
+               "socket still sees the batch; validates UdpGso.KernelSpec and the glue around the modelled core)"]
     rule = ("send vectors from one PRNG: equal/shrinking/growing runs, size 1, wireguard-like sizes, runs of 63..66 and 127/128 "
             "equal datagrams, totals crossing the 65507/65527 maximum, capacity exhaustion (cap = len + k*size), short tail then "
             "continuing, control buffer too small, v4/v6, with/without sticky source; receive vectors: GRO trains in receiveIP's "
@@ -56,7 +61,9 @@ class Prop:
                    "every receive buffer holds the largest datagram (device: 65535 bytes)"]
     trusted_extra = ["Base/Ints.v: primitive Uint63 literals carry sizes and run descriptions in generated case files only",
                      "harness run-length encoder of byte strings (pattern runs; decoded and compared byte for byte in Go before use)",
-                     "conn/verif_c18_linux.go: sets ep.src, switches offloads off on an open bind (add-only, verif tag)"]
+                     "conn/verif_c18_linux.go: sets ep.src, switches offloads off on an open bind (add-only, verif tag)",
+                     "conn/verif_c18b_linux.go: runs StdNetBind.send with a harness writer, replaces the packet conn Send writes to "
+                     "(fault injection: partial sendmmsg acceptance, EIO) (add-only, verif tag)"]
 
     def __init__(self):
         self.dir = os.path.join(vlib.OUT, "C18")
@@ -93,7 +100,7 @@ class Prop:
                 for f in (v.get(fam) or {}).get("failures") or []:
                     res.append({"kind": "loopback", "gen": "loopback", "family": f.get("family", fam),
                                 "pass": f.get("pass", pas), "sizes": f.get("sizes"), "caps": f.get("caps"),
-                                "sticky": f.get("sticky", False), "script": f.get("script"),
+                                "sticky": f.get("sticky", False), "script": f.get("script"), "oracle": f.get("oracle"),
                                 "got_sizes": f.get("got_sizes"), "first_diff": f.get("first_diff", 0),
                                 "error": f.get("error", "")})
         return res
@@ -197,14 +204,15 @@ class Prop:
             for j, i in enumerate(model_idx):
                 self.last_rerun[i] = meta["cases"][j]
                 # keep the observed outputs with the candidate (signature() looks at them)
-                for key in ("out", "nret", "status", "outn"):
+                for key in ("out", "nret", "status", "outn", "outidx"):
                     if key in meta["cases"][j]:
                         cases[i][key] = meta["cases"][j][key]
         for i in loop_idx:
             inp = os.path.join(d, "in_loop.json")
             c = cases[i]
             json.dump([{"kind": "loopback", "family": c["family"], "pass": c["pass"], "sizes": c["sizes"],
-                        "caps": c.get("caps"), "sticky": bool(c.get("sticky")), "script": c.get("script")}],
+                        "caps": c.get("caps"), "sticky": bool(c.get("sticky")), "script": c.get("script"),
+                        "oracle": c.get("oracle")}],
                       open(inp, "w"))
             d2 = os.path.join(d, "loop")
             os.makedirs(d2, exist_ok=True)
@@ -230,6 +238,16 @@ class Prop:
                 c = dict(case)
                 c["script"] = sc[:i] + sc[i + 1:]
                 yield c
+            return
+        if k == "loop":
+            L, o = case["L"], [x for x in case["oracle"] if x != 4096]
+            for i in range(len(o)):
+                yield {"kind": "loop", "gen": case.get("gen"), "L": L, "oracle": o[:i] + o[i + 1:]}
+            for L2 in (L // 2, L - 1):
+                if 1 <= L2 < L:
+                    yield {"kind": "loop", "gen": case.get("gen"), "L": L2, "oracle": o}
+            return
+        if k == "loopback" and case.get("pass") == "wire_partial":
             return
         if k in ("send", "loopback"):
             sizes, caps = case["sizes"], case.get("caps") or [65535] * len(case["sizes"])
@@ -285,6 +303,12 @@ class Prop:
                     return "zero-length-datagram-coalesced-away"
                 return "zero-length-datagram-other-wire-difference"
             return "send-wire-differs-from-batch"
+        if k == "loop":
+            if case.get("status") == 2:
+                return "send-loop-panics-under-partial-writes"
+            if case.get("status") == 1:
+                return "send-loop-reports-error-without-kernel-failure"
+            return "send-loop-skips-or-repeats-messages-after-partial-writes"
         if k == "recv":
             exp = case.get("expect") or []
             zero = [i for i, e in enumerate(exp) if e[0] == 0]
@@ -301,6 +325,8 @@ class Prop:
             return any(m["gso"] for m in out) and len(out) >= 2
         if c.get("kind") == "recv":
             return any(s.get("gso", 0) > 0 and len(s.get("sizes") or []) > 1 for s in c.get("slots") or []) and c.get("status") == 0
+        if c.get("kind") == "loop":
+            return len([x for x in c.get("oracle") or [] if 0 < x < c.get("L", 0)]) >= 2
         return False
 
     def sample(self, c):
@@ -312,6 +338,9 @@ class Prop:
             return {"kind": "recv", "gen": c.get("gen"), "L": c.get("L"), "first": c.get("first"),
                     "slots": [[s["n"], s["gso"]] for s in c.get("slots", []) if s["n"]][:8],
                     "returned_n": c.get("nret"), "status": c.get("status")}
+        if c.get("kind") == "loop":
+            return {"kind": "loop", "gen": c.get("gen"), "L": c.get("L"), "oracle": [x for x in c.get("oracle", []) if x != 4096][:16],
+                    "transmitted": len(c.get("outidx") or []), "status": c.get("status")}
         return c
 
 
